@@ -185,6 +185,10 @@ def decide(pid, cfg, tier, seed, args):
     relevant = [f for f in real if match_any(own, f['qual']) or match_any(relies, f['qual'])]
     names = sorted(f['qual'] for f in relevant)
     if args.update_baseline:
+        sh = assemble.shapes()
+        sh.update(meta['shapes'])
+        with open(assemble.SHAPES_PATH, 'w') as fo:
+            json.dump(sh, fo, indent=0, sort_keys=True)
         baseline[pid] = sorted(n for n in names if n not in failing)
         with open(bpath, 'w') as fo:
             json.dump(baseline, fo, indent=1, sort_keys=True)
@@ -253,7 +257,8 @@ def decide(pid, cfg, tier, seed, args):
                "verifier_output": [e['text'] for e in errs],
                "repo_item": f['item'],
                "generated_text": "\n".join(gen_lines[f['first'] - 1:f['last']]) if f['last'] >= f['first'] else None,
-               "checker_cmd": res.cmd}
+               "checker_cmd": res.cmd,
+               "note": ("; ".join(meta.get('reanchored', [])) or None)}
         suffix = " no-failing-input-found"
         ex = f.get('extra') if isinstance(f, dict) else None
         if ex and ex.get('counterexample'):
